@@ -566,6 +566,10 @@ class DebugSuite(Suite):
                     if named and r.random() < 0.3:
                         key = 'k%d' % i
                         ps.append(pick(r, ['name = k%d', 'name(k%d)', 'name = "k%d"', 'rename = k%d', 'rename("k%d")']) % i)
+                    if not ps and r.random() < 0.2:
+                        f.at['_metas'] = [pick(r, ['Debug(ignore = false)', 'Debug(ignore(false))', 'Debug = true'])]
+                    elif ps and r.random() < 0.2:
+                        ps.append(pick(r, ['ignore = false', 'ignore(false)']))
                     if ps:
                         r.shuffle(ps)
                         f.at['_metas'] = ['Debug(%s)' % ', '.join(ps)]
@@ -1188,6 +1192,11 @@ def add_noise(t, r, suite):
     if r.random() < 0.45:
         return
     t.type_attrs = t.type_attrs + [noise] if r.random() < 0.5 else [noise] + t.type_attrs
+    if suite == 'debug' and t.kind == 'enum' and all_a and r.random() < 0.6:
+        # a second noise trait with a VARIANT-level marker: Default on one variant
+        t.type_attrs = t.type_attrs + ['Default']
+        dv = pick(r, t.variants)
+        dv.at['_noise'] = ['Default']
     for v in t.variants:
         v.at['_r'] = r
         for f in v.fields:
